@@ -35,6 +35,8 @@ func init() {
 			{ID: "C12-R6", Title: "VirtualOS methods stay virtual", Floor: 20, Run: virtualOSStaysVirtual},
 			{ID: "C12-R7", Title: "option lists handed to the VM come from Config.VMOpts", Floor: 2, Run: vmOptionsFromConfig},
 			{ID: "C12-R8", Title: "context installers return a derived context carrying the value", Floor: 3, Run: ctxInstallersReturnDerived},
+			{ID: "C12-R9", Title: "contexts made from nothing are an explicit table (shared with C06)", Floor: 6, Run: detachedContextsAreEnumerated},
+			{ID: "C12-R10", Title: "the mediated modules keep no run-time state", Floor: 1, Run: mediatedModulesKeepNoState},
 		},
 	})
 }
